@@ -200,8 +200,14 @@ def build(rng: Random, *, max_len: int = 120, base: str | None = None, ops: tupl
                 out.append((dtm, frame))
                 p = split(frame)
                 if p and p["code"] in ("000C", "3150", "2309", "12B0", "000A", "0004") and len(p["payload"]) >= 4 and p["payload"][:1] == "0" and rng.random() < 0.25:
-                    idx = rng.choice([f"{i:02X}" for i in range(16) if f"{i:02X}" != p["payload"][:2]][: rng.choice((4, 12, 15))])
-                    out.append((dtm, join(dict(p, payload=idx + p["payload"][2:]))))
+                    if p["code"] == "000C" and len(p["payload"]) >= 12 and rng.random() < 0.5:
+                        # the same device(s) named again for the same zone, in another role (sensor <-> actuator ...)
+                        role = rng.choice([r for r in ("00", "04", "08", "09", "0A", "0B", "0D", "0E", "0F", "11") if r != p["payload"][2:4]])
+                        out.append((dtm, join(dict(p, payload=p["payload"][:2] + role + p["payload"][4:]))))
+                        meta["role_conflicts"] = meta.get("role_conflicts", 0) + 1
+                    else:
+                        idx = rng.choice([f"{i:02X}" for i in range(16) if f"{i:02X}" != p["payload"][:2]][: rng.choice((4, 12, 15))])
+                        out.append((dtm, join(dict(p, payload=idx + p["payload"][2:]))))
                     n_conf += 1
             lines = out
             meta["conflicts"] = n_conf
@@ -222,9 +228,48 @@ def build(rng: Random, *, max_len: int = 120, base: str | None = None, ops: tupl
             lines = out
             meta["mutated"] = n_mut
     lines = lines[: 2 * max_len]
+    if ops is None and rng.random() < 0.3:
+        lines = role_claims(rng, lines, meta)
     if "zone-update" in chosen:
         lines = lines + zone_update_tail(rng, lines, meta)
     return History(retime(lines), meta)
+
+
+def dev_hex(dev_id: str) -> str:
+    return f"{(int(dev_id[:2]) << 18) | int(dev_id[3:]):06X}"
+
+
+def role_claims(rng: Random, lines: list[tuple[str, str]], meta: dict[str, Any]) -> list[tuple[str, str]]:
+    """A controller names a device it has been heard with for a zone in one role, and (later) the same device
+    for the same zone in another role - relays as sensors, sensors as actuators, in either order.  Inserted
+    after the first third of the history, a few packets apart."""
+    ctls = sorted({q["addrs"][:9] for _, f in lines if (q := split(f)) and q["addrs"][:2] == "01"})
+    devs = sorted({q["addrs"][:9] for _, f in lines if (q := split(f)) and q["addrs"][:2] in ("02", "04", "10", "13", "22", "34", "03", "12", "07")})
+    if not ctls or not devs:
+        return lines
+    ctl = rng.choice(ctls)
+    out = list(lines)
+    at = len(out) // 3
+    n = 0
+    for _ in range(rng.choice((1, 2, 4))):
+        dev, idx = rng.choice(devs), f"{rng.randrange(0, 12):02X}"
+        roles = rng.sample(("00", "04", "08", "0A", "0B", "0F", "11", "0D", "0E"), 2)
+        if rng.random() < 0.6:
+            roles[rng.randrange(2)] = "04"  # one of the claims is 'zone sensor'
+        for role in roles:
+            if role in ("0D", "0E", "0F") and rng.random() < 0.7:
+                idx_ = "00"
+            else:
+                idx_ = idx
+            frame = f"045 RP --- {ctl} 18:006402 --:------ 000C 006 {idx_}{role}00{dev_hex(dev)}"
+            at = min(len(out), at + rng.choice((0, 1, 5)))
+            dtm = out[at - 1][0] if at else (out[0][0] if out else "2024-03-01T12:00:00.000000")
+            out.insert(at, (dtm, frame))
+            at += 1
+            n += 1
+    meta["ops"].append("role-claims")
+    meta["role_claims"] = n
+    return out
 
 
 ARRAY_ELEM = {"000A": 12, "2309": 6, "30C9": 6, "22C9": 12, "2249": 14, "0009": 6}
